@@ -1,90 +1,7 @@
 From Coq Require Import String.
 From Coq Require Import List NArith ZArith Bool Lia.
 Import ListNotations.
-From JR Require Import Json Handle Handle_Proofs Errors.
-
-(* ---------- integer text round trip: the code survives the wire *)
-Definition alld (l : bytes) : Prop := Forall (fun c => is_digit c = true) l.
-
-Lemma take_digits_all l : alld l -> take_digits l = (l, []).
-Proof. induction 1 as [|c l Hc _ IH]; simpl; [reflexivity|]. rewrite Hc, IH. reflexivity. Qed.
-
-Lemma digit_is_digit n : (n < 10)%N -> is_digit (48 + n) = true.
-Proof. intros H. unfold is_digit. apply andb_true_intro; split; apply N.leb_le; lia. Qed.
-
-Lemma pos_digits_all f : forall n acc, alld acc -> alld (pos_digits f n acc).
-Proof.
-  induction f as [|f IH]; intros n acc Ha; simpl; [exact Ha|].
-  destruct (N.ltb_spec n 10) as [Hl|Hl].
-  - constructor; [apply digit_is_digit; exact Hl|exact Ha].
-  - apply IH. constructor; [|exact Ha]. apply digit_is_digit. apply N.mod_lt. discriminate.
-Qed.
-
-Lemma pos_digits_nonempty f n acc : f <> O -> pos_digits f n acc <> [].
-Proof.
-  revert n acc. induction f as [|f IH]; intros n acc Hf; [congruence|]. simpl.
-  destruct (n <? 10)%N; [discriminate|]. destruct f as [|f']; [simpl; discriminate|]. apply IH. discriminate.
-Qed.
-
-Lemma digits_val_shift l : forall a, digits_val l a = (a * 10 ^ Z.of_nat (List.length l) + digits_val l 0)%Z.
-Proof.
-  induction l as [|c l IH]; intros a; [simpl; lia|].
-  cbn [digits_val List.length]. rewrite IH. rewrite (IH (0 * 10 + _)%Z).
-  rewrite Nat2Z.inj_succ, Z.pow_succ_r by lia. lia.
-Qed.
-
-Lemma pos_digits_val f : forall n acc, (Z.of_N n < 10 ^ Z.of_nat f)%Z ->
-  digits_val (pos_digits f n acc) 0 = (Z.of_N n * 10 ^ Z.of_nat (List.length acc) + digits_val acc 0)%Z.
-Proof.
-  induction f as [|f IH]; intros n acc Hn.
-  - simpl in Hn. assert (n = 0%N) by lia. subst n. simpl. lia.
-  - cbn [pos_digits]. destruct (N.ltb_spec n 10) as [Hl|Hl].
-    + cbn [digits_val]. rewrite digits_val_shift.
-      assert (E : (48 + n - 48)%N = n) by lia. rewrite E. lia.
-    + rewrite IH.
-      * cbn [digits_val List.length]. rewrite (digits_val_shift acc).
-        assert (E0 : forall x : N, (48 + x - 48)%N = x) by (intros x; lia). rewrite E0.
-        rewrite Nat2Z.inj_succ, Z.pow_succ_r by lia.
-        rewrite N2Z.inj_mod. rewrite N2Z.inj_div. change (Z.of_N 10) with 10%Z.
-        pose proof (Z.div_mod (Z.of_N n) 10 ltac:(lia)) as E. nia.
-      * rewrite Nat2Z.inj_succ, Z.pow_succ_r in Hn by lia. rewrite N2Z.inj_div. change (Z.of_N 10) with 10%Z.
-        apply Z.div_lt_upper_bound; lia.
-Qed.
-
-Lemma int_literal_cons c l : c <> 45%N ->
-  int_literal (c :: l) = match take_digits (c :: l) with
-                         | ((_ :: _) as d, []) => Some (digits_val d 0)
-                         | _ => None end.
-Proof.
-  intros H. unfold int_literal. destruct c as [|q]; [reflexivity|].
-  repeat (destruct q as [q|q|]; try reflexivity). congruence.
-Qed.
-
-Lemma digit_not_minus c : is_digit c = true -> c <> 45%N.
-Proof. intros H ->. discriminate. Qed.
-
-Lemma int_literal_pos p : (Z.pos p < 10 ^ 80)%Z ->
-  int_literal (pos_digits 80 (Npos p) []) = Some (Z.pos p) /\
-  int_literal (45 :: pos_digits 80 (Npos p) []) = Some (Z.neg p).
-Proof.
-  intros Hp.
-  assert (Hd : alld (pos_digits 80 (Npos p) [])) by (apply pos_digits_all; constructor).
-  assert (Hne : pos_digits 80 (Npos p) [] <> []) by (apply pos_digits_nonempty; discriminate).
-  assert (Hv : digits_val (pos_digits 80 (Npos p) []) 0 = Z.pos p).
-  { rewrite pos_digits_val; [cbn [List.length digits_val]; lia|]. exact Hp. }
-  remember (pos_digits 80 (N.pos p) []) as L eqn:EL. clear EL.
-  destruct L as [|c l]; [congruence|]. split.
-  - rewrite int_literal_cons; [|apply digit_not_minus; inversion Hd; assumption].
-    rewrite take_digits_all by exact Hd. cbv beta iota. apply f_equal. exact Hv.
-  - unfold int_literal. rewrite take_digits_all by exact Hd. cbv beta iota. apply f_equal. change (Z.neg p) with (- Z.pos p)%Z. apply f_equal. exact Hv.
-Qed.
-
-Lemma int_literal_z_lit z : (Z.abs z < 10 ^ 80)%Z -> int_literal (z_lit z) = Some z.
-Proof.
-  intros H. destruct z as [|p|p]; [reflexivity| |].
-  - change (z_lit (Z.pos p)) with (pos_digits 80 (N.pos p) []). apply int_literal_pos. lia.
-  - change (z_lit (Z.neg p)) with (45%N :: pos_digits 80 (N.pos p) []). apply int_literal_pos. lia.
-Qed.
+From JR Require Import Json Json_Proofs Handle Handle_Proofs Errors.
 
 (* ---------- the wire object *)
 Lemma bs_neq_eqb a b : bytes_eqb a b = false -> a <> b.
